@@ -25,9 +25,9 @@ RULE = ('pools of 4 random pages (1-5 lines, sparse logits, empty and non-empty 
         'real processes. non-trivial = history in which the page under test is preceded by a different page; distinct = hash of (configuration, pool seed, history)')
 ASSUMPTIONS = ['the reference result of a page is the one obtained from a freshly constructed instance that processes only that page',
                'transcriptions compared exactly, confidences within 1e-12', 'stub OCR network and toy LM as in C07 / C03']
-N = {'quick': 48, 'thorough': 4000}
-CLASSES = ['beam_nolm', 'lm_nocarry', 'lm_carry', 'lm_carry', 'greedy', 'lm_carry_threshold', 'page_parser', 'lm_carry']
-REQUIRED = ['histories', 'page_results_compared', 'pages_after_other_page', 'repeated_pages', 'carry_lines_decoded', 'lines_reprimed_from_last_line', 'confident_lines_skipped',
+N = {'quick': 72, 'thorough': 4000}
+CLASSES = ['beam_nolm', 'lm_nocarry', 'lm_carry', 'lm_carry', 'greedy', 'lm_carry_threshold', 'page_parser', 'lm_carry', 'layout_history', 'lm_carry', 'layout_history', 'beam_nolm']
+REQUIRED = ['given_line_pages', 'layout_history_pages', 'layout_pages_without_upright_lines', 'histories', 'page_results_compared', 'pages_after_other_page', 'repeated_pages', 'carry_lines_decoded', 'lines_reprimed_from_last_line', 'confident_lines_skipped',
             'page_parser_pages', 'process_pairs_compared', 'resume_runs_compared']
 KNOWN_DS = 'adaptive down-sampling factor carried over from the previous page'
 LETTERS = list('abc')
@@ -59,10 +59,20 @@ def gen(rng, i, ctx):
     thr = None
     if cls == 'lm_carry_threshold' or rng.random() < 0.3:
         thr = [0.0, 0.3, 0.9, float('inf')][int(rng.integers(0, 4))]
-    seqs = [list(p) for p in itertools.permutations(range(3))][:: (1 if cls != 'page_parser' else 3)]
+    seqs = [list(p) for p in itertools.permutations(range(3))][:: (1 if cls not in ('page_parser', 'layout_history') else 3)]
+    if cls == 'layout_history':
+        seqs = [[3, 1], [0, 1, 2], [2, 3, 1, 0]]
     for _ in range(2 if cls != 'page_parser' else 1):
         seqs.append([int(x) for x in rng.integers(0, 4, size=int(rng.integers(2, 9 if cls != 'page_parser' else 5)))])
-    return {'cls': cls, 'threshold': thr, 'pool_seed': int(rng.integers(0, 1 << 30)), 'lm_seed': int(rng.integers(0, 1 << 30)), 'k': int(rng.choice([1, 2, 4])),
+    combos = [dict(multi_orientation=True, adjust_heights=True, line_filter=False, sorter=False, given_lines=False),
+              dict(multi_orientation=False, adjust_heights=False, line_filter=False, sorter=False, given_lines=True),
+              dict(multi_orientation=True, adjust_heights=True, line_filter=True, sorter=True, given_lines=False),
+              dict(multi_orientation=False, adjust_heights=True, line_filter=False, sorter=True, given_lines=False),
+              dict(multi_orientation=False, adjust_heights=False, line_filter=False, sorter=False, given_lines=True),
+              dict(multi_orientation=True, adjust_heights=False, line_filter=True, sorter=False, given_lines=False)]
+    opts = dict(combos[((i // len(CLASSES)) * 2 + (1 if i % len(CLASSES) == 10 else 0)) % len(combos)], straight_lines=False)   # fixed cycle, so that every tier / seed covers every combination
+    # (DETECT_STRAIGHT_LINES_IN_REGIONS raises a TypeError in detect_lines_in_region on these inputs on the unchanged tree - not a history effect - and is left off)
+    return {'cls': cls, 'layout_options': opts, 'threshold': thr, 'pool_seed': int(rng.integers(0, 1 << 30)), 'lm_seed': int(rng.integers(0, 1 << 30)), 'k': int(rng.choice([1, 2, 4])),
             'lm_scale': float(rng.choice([0.5, 1.0, 2.0])), 'sequences': seqs}
 
 
@@ -109,6 +119,8 @@ def same(a, b):
 def check(case, mon, ctx):
     if case['cls'] == 'page_parser':
         return check_page_parser(case, mon, ctx)
+    if case['cls'] == 'layout_history':
+        return check_layout_history(case, mon, ctx)
     L = ctx.L
     mk = make_decoder(case, ctx)
     pages = [make_page(L, case['pool_seed'], p) for p in range(4)]
@@ -347,3 +359,127 @@ def adaptive_downsample_probe(mon, ctx):
     if t1 != t2:
         mon.violation('same-page-twice-gives-identical-output', {'stage': 'layout detection', 'first': t1[:1], 'second': t2[:1]},
                       mechanism=KNOWN_DS if abs(float(twice_e.parsenet.last_downsample) - 4.0) > 1e-9 else None)
+
+
+# ---------------------------------------------------------------------------------------------------------------------------
+def check_layout_history(case, mon, ctx):
+    """a full PageParser with the CNN layout stage (stub ParseNet), optional line filter (stub orientation net) and region sorter,
+    line cropper and stub OCR, fed sequences of page images: lines, geometry, transcriptions and confidences of a page must equal
+    those from a freshly built parser"""
+    import random
+    import torch
+    L = ctx.L
+    o = case['layout_options']
+    root = os.path.join(ctx.tmpdir, 'lh')
+    if not os.path.exists(root + '/parsenet.pt.cpu'):
+        os.makedirs(root, exist_ok=True)
+        ctx.stubs.make_parsenet(root + '/parsenet.pt', horizontal_runs_only=True)
+        ctx.stubs.make_ocr_engine_dir(root + '/eng', pipeline.CHARS, H=16, seed=5, blank_bias=1.0, wscale=1.5)
+
+        class Orient(torch.nn.Module):
+            def forward(self, x):
+                return x[:, 0:2] * 2.0 - 0.3
+        torch.jit.save(torch.jit.script(Orient().eval()), root + '/orient.pt.cpu')
+    yn = lambda b: 'yes' if b else 'no'
+    d = {'PAGE_PARSER': {'RUN_LAYOUT_PARSER': 'yes', 'RUN_LINE_CROPPER': 'yes', 'RUN_OCR': 'yes', 'RUN_DECODER': 'no'},
+         'LAYOUT_PARSER_1': {'METHOD': 'LAYOUT_CNN', 'MODEL_PATH': 'parsenet.pt', 'USE_CPU': 'yes', 'DETECT_REGIONS': 'yes', 'DETECT_LINES': 'yes',
+                             'DETECT_STRAIGHT_LINES_IN_REGIONS': yn(o['straight_lines']), 'MERGE_LINES': 'no', 'MULTI_ORIENTATION': yn(o['multi_orientation']),
+                             'ADJUST_HEIGHTS': yn(o['adjust_heights']), 'ADJUST_BASELINES': 'no', 'DOWNSAMPLE': '2', 'ADAPTIVE_DOWNSAMPLE': 'no', 'DETECTION_THRESHOLD': '0.2', 'MAX_MEGAPIXELS': '5'},
+         'LINE_CROPPER': {'INTERP': '2', 'LINE_SCALE': '1', 'LINE_HEIGHT': '16'}, 'OCR': {'OCR_JSON': './eng/ocr.json', 'USE_CPU': 'yes'}}
+    if o.get('given_lines'):
+        # lines come with the page (input PAGE XML); the only layout stage is the direction filter with its orientation network
+        d.pop('LAYOUT_PARSER_1')
+        d['LAYOUT_PARSER_1'] = {'METHOD': 'LINE_FILTER', 'MODEL_PATH': 'orient.pt', 'USE_CPU': 'yes', 'FILTER_DIRECTIONS': 'yes', 'FILTER_INCOMPLETE_PAGES': 'no',
+                                'FILTER_PAGES_WITH_SHORT_LINES': 'no', 'LENGTH_THRESHOLD': '10'}
+    n = 2
+    if o['line_filter'] and not o.get('given_lines'):
+        d['LAYOUT_PARSER_%d' % n] = {'METHOD': 'LINE_FILTER', 'MODEL_PATH': 'orient.pt', 'USE_CPU': 'yes', 'FILTER_DIRECTIONS': 'yes', 'FILTER_INCOMPLETE_PAGES': 'no',
+                                     'FILTER_PAGES_WITH_SHORT_LINES': 'no', 'LENGTH_THRESHOLD': '10'}
+        n += 1
+    if o['sorter'] and not o.get('given_lines'):
+        d['LAYOUT_PARSER_%d' % n] = {'METHOD': 'REGION_SORTER_SMART'}
+    cfg = configparser.ConfigParser()
+    cfg.read_dict(d)
+    rng = np.random.default_rng(case['pool_seed'])
+    pages = []
+    for kind in ('upright', 'vertical_only', 'mixed', 'empty'):
+        hl, vl = [], []
+        if kind in ('upright', 'mixed'):
+            hl = [(int(y), 60, int(rng.integers(300, 540))) for y in range(90, 500, int(rng.integers(90, 140)))][:int(rng.integers(1, 4))]
+        if kind in ('vertical_only', 'mixed'):
+            vl = [(int(x), 80, int(rng.integers(300, 520))) for x in ([620, 700] if kind == 'mixed' else [200, 400, 620])][:int(rng.integers(1, 4))]
+        # with the horizontal-runs stub the upright pass sees no line in a vertical stroke (4 px wide), the rotated passes do
+        img = ctx.stubs.stroke_image(hl, vl, H=600, W=800, asc=int(rng.integers(8, 18)), desc=int(rng.integers(3, 8)), vthick=2)
+        img[:, :, :] = np.maximum(img, (rng.integers(0, 20, size=(600, 800, 1))).astype(np.uint8) * (img[:, :, 2:3] == 0))   # faint texture, same in all channels
+        pages.append((kind, img))
+
+    given = None
+    if o.get('given_lines'):
+        given = []
+        pages = []
+        for kind in ('upright', 'upside_down_only', 'steep_and_upright', 'mixed'):
+            img = np.zeros((600, 800, 3), np.uint8)
+            img[:, :, 0] = int(rng.integers(0, 256)); img[:, :, 1] = int(rng.integers(0, 256)); img[:, :, 2] = rng.integers(0, 256, size=(600, 800))
+            img[:, 400:, 0] = int(rng.integers(0, 256)); img[300:, :, 1] = int(rng.integers(0, 256))      # the orientation map differs between page areas and between pages
+            lines = []
+            if kind in ('upright', 'steep_and_upright', 'mixed'):
+                lines += [('h', [[60.0, y], [500.0, y + 4.0]]) for y in (100.0, 260.0)]
+            if kind in ('upside_down_only', 'mixed'):
+                lines += [('u', [[700.0, y], [200.0, y - 3.0]]) for y in (180.0, 420.0, 520.0)]
+            if kind in ('steep_and_upright', 'mixed'):
+                lines += [('v', [[x, 80.0], [x + 5.0, 500.0]]) for x in (620.0, 720.0)]
+            given.append(lines)
+            pages.append((kind, img))
+
+    def fresh():
+        with contextlib.redirect_stdout(io.StringIO()), contextlib.redirect_stderr(io.StringIO()):
+            return ctx.pp.PageParser(cfg, device=torch.device('cpu'), config_path=root)
+
+    def close(parser):
+        for lp in parser.layout_parsers:
+            if hasattr(lp, 'pool'):
+                lp.pool.close()
+
+    def run(parser, p):
+        random.seed(1234 + p); np.random.seed(1234 + p)       # the engine orders lines with random jitter: same jitter for the reference and the history run
+        pl = L.PageLayout(id='p%d' % p, page_size=(600, 800))
+        if given is not None:
+            from pero_ocr.layout_engines import layout_helpers as hlp
+            reg = L.RegionLayout('r1', np.array([[0.0, 0.0], [800.0, 0.0], [800.0, 600.0], [0.0, 600.0]]))
+            for k, (kind_, b) in enumerate(given[p]):
+                b = np.array(b)
+                reg.lines.append(L.TextLine(id='r1-l%03d' % k, baseline=b, heights=[12.0, 4.0], polygon=hlp.baseline_to_textline(b, [12.0, 4.0])))
+            pl.regions.append(reg)
+            mon.count('given_line_pages')
+        try:
+            with contextlib.redirect_stdout(io.StringIO()):
+                pl = parser.process_page(pages[p][1].copy(), pl)
+        except Exception as e:
+            return 'EXCEPTION %s: %s' % (type(e).__name__, str(e)[:120])
+        return [(r.id, l.id, np.round(np.asarray(l.baseline, dtype=np.float64), 3).tolist(), [round(float(h), 3) for h in l.heights], l.transcription,
+                 None if l.transcription_confidence is None else round(float(l.transcription_confidence), 9)) for r in pl.regions for l in r.lines]
+    ref = []
+    for p in range(4):
+        ps = fresh(); ref.append(run(ps, p)); close(ps)
+    if given is None and (isinstance(ref[0], str) or not ref[0]):
+        mon.inconclusive_because('layout-history leg: the reference run of the upright page found no lines or raised: %r' % (ref[0] if isinstance(ref[0], str) else 'no lines'))
+        return
+    if given is None and not isinstance(ref[1], str) and all(abs(l[2][0][1] - l[2][-1][1]) > abs(l[2][0][0] - l[2][-1][0]) for l in ref[1]):
+        mon.count('layout_pages_without_upright_lines')
+    for seq in case['sequences']:
+        parser = fresh()
+        mon.count('histories')
+        for pos, p in enumerate(seq):
+            got = run(parser, p)
+            mon.count('layout_history_pages')
+            mon.count('page_results_compared')
+            if pos > 0:
+                mon.count('pages_after_other_page')
+            if got != ref[p]:
+                first = next((k for k, (x, y) in enumerate(zip(got, ref[p])) if x != y), None) if not isinstance(got, str) and not isinstance(ref[p], str) else None
+                mon.violation('page-result-independent-of-history', {'configuration': 'PageParser(layout CNN + cropper + OCR)', 'layout_options': o, 'history': [pages[q][0] for q in seq[:pos + 1]],
+                              'page': pages[p][0], 'lines_after_history': len(got) if not isinstance(got, str) else got, 'lines_alone': len(ref[p]) if not isinstance(ref[p], str) else ref[p],
+                              'first_difference': None if first is None else {'after_history': got[first], 'alone': ref[p][first]}})
+                break
+        close(parser)
+    mon.mark_nontrivial()
